@@ -487,6 +487,11 @@ def stale_ps(repo: Repo) -> List[Ob]:
         handles |= {a.test.args[0].id for a in walk_no_nested(fi.node) if isinstance(a, ast.Assert) and isinstance(a.test, ast.Call) and src(a.test.func) == "isinstance"
                     and len(a.test.args) == 2 and isinstance(a.test.args[0], ast.Name) and src(a.test.args[1]) == "ProductState"}
 
+        # lists of product spaces looked up from the registry (`ps = [p for p in self.states if …]`), used as `ps[0].action(…)`
+        list_handles = {a.targets[0].id for a in walk_no_nested(fi.node) if isinstance(a, ast.Assign) and len(a.targets) == 1 and isinstance(a.targets[0], ast.Name)
+                        and isinstance(a.value, ast.ListComp) and any(src(g_.iter) in ("self.states", "self.product_states") for g_ in a.value.generators)}
+        handles -= list_handles
+
         def atom(e, truth, st):
             fresh, grouped = st
             if isinstance(e, ast.Call) and isinstance(e.func, ast.Name) and e.func.id == "all" and ".state_objs" in src(e) and truth:
@@ -518,12 +523,14 @@ def stale_ps(repo: Repo) -> List[Ob]:
                                 fresh = fresh - {e.id}
                             else:
                                 fresh = fresh | {e.id}
+                if isinstance(tg, ast.Name) and tg.id in list_handles:
+                    fresh = (fresh | {tg.id}) if isinstance(a.value, ast.ListComp) else (fresh - {tg.id})
                 if isinstance(tg, ast.Name) and tg.id in handles:
                     v = a.value
                     if isinstance(v, ast.Name) and v.id in handles:
                         fresh = (fresh | {tg.id}) if v.id in fresh else (fresh - {tg.id})
-                    elif isinstance(v, ast.Subscript) and isinstance(v.value, ast.Name) and v.value.id in stale_lists.get(id(st), set()):
-                        fresh = fresh - {tg.id}
+                    elif isinstance(v, ast.Subscript) and isinstance(v.value, ast.Name) and v.value.id in list_handles:
+                        fresh = (fresh | {tg.id}) if v.value.id in fresh else (fresh - {tg.id})
                     else:
                         fresh = fresh | {tg.id}
             return [(fresh, grouped)]
@@ -534,7 +541,9 @@ def stale_ps(repo: Repo) -> List[Ob]:
         for node in cfg.nodes:
             for x in walk_node(node):
                 mc = method_call(x)
-                if mc and isinstance(mc[0], ast.Name) and mc[0].id in handles and mc[1] in PS_ACTIONS:
+                if mc and mc[1] in PS_ACTIONS and isinstance(mc[0], ast.Subscript) and isinstance(mc[0].value, ast.Name) and mc[0].value.id in list_handles:
+                    mc = (mc[0].value, mc[1])
+                if mc and isinstance(mc[0], ast.Name) and mc[0].id in (handles | list_handles) and mc[1] in PS_ACTIONS:
                     k += 1
                     n += 1
                     stale = [st for st in seen[node] if mc[0].id not in st[0]]
